@@ -125,6 +125,7 @@ def run(facts, res):
                         continue
                     mk = roles_of(facts).path("marker")
                     import re as _re
+                    subj = _re.sub(r"::\{inlined#\d+ [^}]*\}", "", subj)
                     gsubj = _re.sub(r"<marker>::\{closure#\d+\}", "<marker>", subj.replace(mk, "<marker>"))
                     if gsubj in EXCEPTIONS and _validate_exception(subj, body, site, bl, tok, facts, mk):
                         res.exception(res.prop + "|R1|" + gsubj, EXCEPTIONS[gsubj])
